@@ -49,9 +49,20 @@ def readHeader (bs : Bits) : R (Header × Bits) := do
   let (items, bs) ← readRleItems t (hlit + hdist) (bs.length + 1) 0 bs
   .ok (⟨hlit, hdist, hclen, cl, items⟩, bs)
 
+/-- NOT part of RFC 1951: an implementation limit of the analysed library. Its reader refuses to
+    continue once the plain text is longer than `i32::MAX - 65535` bytes (it keeps plain-text
+    positions as `i32`); the check sits before every literal/length symbol and before the bytes
+    of a stored block. It is transcribed here only so that this procedure stays EQUAL, as a
+    function, to the model parser (`parseBits_eq_spec`); on every plain text up to that size the
+    procedure below is the RFC's. -/
+def implPlainLimit : Nat := 2147483647 - 65535
+
 def decodeTokens (lt dt : List (Bits × Nat)) : Nat → Array Nat → Bits → R (List Token × Array Nat × Bits)
   | 0, _, _ => .error .fuel
-  | fuel + 1, plain, bs => do
+  | fuel + 1, plain, bs =>
+    -- implementation limit of the analysed library, not RFC 1951 (see `implPlainLimit`)
+    if plain.size > implPlainLimit then .error .err
+    else do
       let (sym, bs) ← decodeSym lt bs
       if sym < 256 then do
         let (ts, plain, bs) ← decodeTokens lt dt fuel (plain.push sym) bs
@@ -79,6 +90,8 @@ def readBlock (plain : Array Nat) (bs : Bits) : R (Bool × Block × Array Nat ×
     let (len, bs) ← readBits 16 bs
     let (ilen, bs) ← readBits 16 bs
     if len + ilen ≠ 65535 then throw .err
+    -- implementation limit of the analysed library, not RFC 1951 (see `implPlainLimit`)
+    if plain.size > implPlainLimit then throw .err
     let (data, bs) ← readBytes len bs
     .ok (last == 1, .stored pad data, pushAll plain data, bs)
   else if mode = 1 then do
